@@ -825,6 +825,9 @@ def rule_h(ctx):
 
 
 def run(ctx):
+    from . import c15 as _c15
+    from .common import shared as _sh15
+    ctx.guard(_sh15, ctx, "C04.b", _c15.run, why="the cost reported is the quadrature of the flux norm: the rules selected by transport_density must be exact (corner rule: the 2^dim distinct vertices)")
     from .common import rule_abs_tolerance
     ctx.guard(rule_abs_tolerance, ctx, "C04.i", [f for mn_ in (WAS, "darsia.utils.linalg") for k in ctx.model.mod(mn_).classes.values() for f in k.methods.values()], "mass balance and reported cost must hold for masses of any magnitude")
     ctx.guard(rule_a, ctx)
